@@ -118,6 +118,7 @@ Definition wf_target (t : target) (d : nat) : Prop :=
   | TGauss p => length p = d
   | TQuartic => True
   | TSplit pl pr => length pl = d /\ length pr = d
+  | TQuad P => length P = d /\ Forall (fun row => length row = d) P
   | TBox p _ _ => length p = d
   end.
 
@@ -135,9 +136,15 @@ Proof. apply map_length. Qed.
 
 Theorem wf_target_dim t d : wf_target t d -> target_dim t d.
 Proof.
-  intros Hw x Hx. destruct t as [p | | pl pr | p b bad]; cbn in *.
+  intros Hw x Hx. destruct t as [p | | pl pr | P | p b bad]; cbn in *.
   - rewrite qvneg_len, vmul_len; congruence.
   - rewrite qvneg_len, vmul_len; [exact Hx | rewrite vmul_len; reflexivity].
   - destruct Hw as [H1 H2]. rewrite qvneg_len, vmul_len; rewrite ?vside_len; congruence.
+  - destruct Hw as [H1 H2]. unfold qvscale, qvadd, qmatvec, qmattvec.
+    rewrite vscale_length.
+    assert (L1 : length (matvec 0%Qc Qcplus Qcmult P x) = d) by (rewrite matvec_length; exact H1).
+    assert (L2 : length (mattvec 0%Qc Qcplus Qcmult (length x) P x) = d).
+    { rewrite Hx. eapply mattvec_length; eauto. }
+    rewrite vadd_length; congruence.
   - rewrite qvneg_len, vmul_len; congruence.
 Qed.
